@@ -101,8 +101,8 @@ inductive IncReach (R' : Registry) : Mod → Mod → Prop
 /-- What the two registries have to do with each other: `R'` is `R` with `m` replaced by the owner
 (same load number, same keys) and the submodules added under their names.  `R` itself has no
 submodules (the setting of the metamorphic runner: one module of a set without submodules is split).
-One level of include: the owner includes every submodule, the submodules include nothing (they see
-each other's groupings through the owner, see `Visible`). -/
+The parts may include each other in any way (nested includes) as long as every submodule is reached
+from the owner and no part includes itself or is included back by a part it includes. -/
 structure RegsOK (s : Split) (R R' : Registry) : Prop where
   m_mem : s.m ∈ R.mods
   owner_seq : s.owner.seq = s.m.seq
@@ -120,13 +120,9 @@ structure RegsOK (s : Split) (R R' : Registry) : Prop where
   keys_valid : ∀ kv ∈ R.modules, ∃ x ∈ R.mods, x.seq = kv.2
   /-- the unsplit module is bound under its name (it is what `belongs-to` of the parts finds) -/
   m_bound : R.getModule s.m.name = some s.m
-  /-- the owner includes every submodule, each once, and nothing else -/
-  owner_includes : ((s.owner.stmt.all "include").map fun i => R'.findModule true i) = s.subs.map some
-  sub_no_include : ∀ sb ∈ s.subs, sb.stmt.all "include" = []
   /-- the keys of goyang's merged-submodule bookkeeping (`included:includer`) do not collide -/
   sub_name_ne : ∀ sb ∈ s.subs, sb.name ≠ s.m.name
-  keys_apart : ∀ a ∈ s.subs, ∀ b ∈ s.subs, s.m.name ++ ":" ++ a.name ≠ b.name ++ ":" ++ s.m.name
-  /-- (general form, nested includes) every include statement of a part resolves to a submodule of the split -/
+  /-- every include statement of a part resolves to a submodule of the split -/
   inc_resolve : ∀ P ∈ s.parts, ∀ a ∈ P.stmt.all "include", ∃ sb ∈ s.subs, R'.findModule true a = some sb
   /-- every submodule is reached from the owner through include statements -/
   inc_cover : ∀ sb ∈ s.subs, IncReach R' s.owner sb
